@@ -195,7 +195,10 @@ class Ctx:
             "wall_s": round(time.time() - self.t0, 2),
             "violations": len(self.violations),
         }
-        with open(os.path.join(EVID, f"{self.prop}.json"), "w") as f:
+        # specifications beyond the listed properties (ids X..) keep their evidence apart
+        evdir = os.path.join(EVID, "extra") if self.prop.startswith("X") else EVID
+        os.makedirs(evdir, exist_ok=True)
+        with open(os.path.join(evdir, f"{self.prop}.json"), "w") as f:
             json.dump(ev, f, indent=1, default=_default)
         for fid, n in sorted(self.known_hit.items()):
             ent = self.findings[fid]
